@@ -97,9 +97,14 @@ func planFor(prop, tier string) plan {
 			p.variants = []string{"open"}
 			p.steps = 4500
 		}
-	case "C01", "C11", "C13":
+	case "C01", "C13":
 		if tier == "quick" {
 			p.steps = 3500
+		}
+	case "C11":
+		if tier == "quick" {
+			p.variants = []string{"default", "prefix"} // "prefix" carries classes whose ids are prefixes of each other (B10 / B100)
+			p.steps = 2500
 		}
 	case "C03":
 		if tier == "quick" {
@@ -182,6 +187,7 @@ func runWorker(prop, tier string, seed int64, w int) (out workerOut) {
 		return
 	}
 	var runErrs []string
+	halted := 0
 	keys := map[string]bool{}
 	for vi, variant := range pl.variants {
 		// fresh monitors (fresh ghost state) for every chain; coverage is merged afterwards
@@ -200,6 +206,30 @@ func runWorker(prop, tier string, seed int64, w int) (out workerOut) {
 		ci := map[string]interface{}{}
 		for _, m := range mons {
 			m.Finish(res.Engine, ci)
+		}
+		// A BeginBlock panic halts that chain (C12 reports it; for every other property it only ends the
+		// history). So that a chain-halting defect does not blind this property's own monitors, the rest of
+		// the step budget is spent on fresh chains (fresh monitors, derived seeds): many short histories.
+		// The verdict stays INCONCLUSIVE unless one of them reports a violation.
+		for restart := 1; res.Err != nil && strings.Contains(res.Err.Error(), "BeginBlock panicked") && prop != "C12" && restart <= 6 && len(rep.Violations) == 0; restart++ {
+			left := pl.steps - res.Engine.Step
+			if left < 200 {
+				left = 200
+			}
+			halted++
+			mons2 := monitorsFor(prop, known)
+			res = run.Exec(run.Config{Seed: s + int64(restart)*15485863, Steps: left, Profile: gen.ProfileFor(profProp), Genesis: variant, Monitors: mons2, Rep: rep,
+				Raw: prop == "C03", Bootstrap: true, SeedTag: fmt.Sprintf("s%d-w%d-%s-r%d", seed, w, variant, restart)})
+			engines = append(engines, res.Engine)
+			ci2 := map[string]interface{}{}
+			for _, m := range mons2 {
+				m.Finish(res.Engine, ci2)
+			}
+			if ks, ok := ci2["_keys"].([]string); ok {
+				for _, k := range ks {
+					keys[k] = true
+				}
+			}
 		}
 		if ks, ok := ci["_keys"].([]string); ok {
 			for _, k := range ks {
@@ -269,6 +299,9 @@ func runWorker(prop, tier string, seed int64, w int) (out workerOut) {
 	cov["genesis_variants"] = pl.variants
 	if len(runErrs) > 0 {
 		cov["run_errors"] = runErrs
+	}
+	if halted > 0 {
+		cov["chains_restarted_after_begin_block_panic"] = halted
 	}
 	out.Coverage = cov
 	out.Violations = len(rep.Violations)
